@@ -220,3 +220,17 @@ package discovery
 //@   call (*gorm.DB).Group #1 requires [only-validated-entries-unless-asked-otherwise] allowUnvalidated || didCallWith("(*gorm.DB).Where", 1, any("validated != 0"))
 //@   call vc.ParseVerifiablePresentation #1 requires [only-unexpired-entries] arg(0) == match.PresentationRaw && match.PresentationExpiration > ret(call (time.Time).Unix #1)
 //@   loop 1 invariant true
+
+// A different, non-empty stored seed: the service's entries are deleted and the row is saved with the
+// new seed and timestamp 0, in one transaction. The same seed (or none yet) changes nothing.
+//@ func (*sqlStore).wipeOnSeedChange$1
+//@   prop C16
+//@   ensures [seed-change-wipes-and-resets] isNilIface(result) && isNilIface(ret(call (*sqlStore).findAndLockService #1).1)
+//@        && ret(call (*sqlStore).findAndLockService #1).0.Seed != seed && len(ret(call (*sqlStore).findAndLockService #1).0.Seed) > 0 ==>
+//@        did(call (*gorm.DB).Delete #1) && isNilIface(ret(call (*gorm.DB).Delete #1).Error)
+//@        && did(call (*gorm.DB).Save #1) && arg(call (*gorm.DB).Save #1, 0) == tx && typeOf(arg(call (*gorm.DB).Save #1, 1)) == serviceRecord
+//@        && arg(call (*gorm.DB).Save #1, 1).(serviceRecord).LastLamportTimestamp == 0 && arg(call (*gorm.DB).Save #1, 1).(serviceRecord).Seed == seed
+//@        && arg(call (*gorm.DB).Save #1, 1).(serviceRecord).ID == ret(call (*sqlStore).findAndLockService #1).0.ID
+//@   ensures [same-seed-keeps-everything] isNilIface(ret(call (*sqlStore).findAndLockService #1).1)
+//@        && (ret(call (*sqlStore).findAndLockService #1).0.Seed == seed || len(ret(call (*sqlStore).findAndLockService #1).0.Seed) == 0) ==>
+//@        !did(call (*gorm.DB).Delete #1) && !did(call (*gorm.DB).Save #1)
